@@ -325,7 +325,13 @@ def run(rep: Report, tier: str) -> None:
 	# domain order
 	ro = rep.rule('C13/domain-order', 'no comment/quote opener starts with a character consumed by an earlier character-set domain; inside one opener list no earlier opener is a proper prefix of a later one', floor=10)
 	az = tz.func('Lexer.analyze_domain')
-	ro.check('for token_domain in self._definition.analyze_order' in unparse(az.node), 'first-match-dispatch', az.where, 'analyze_domain no longer returns the first domain of analyze_order whose analyzer accepts')
+	azx = X(az)
+	loops = [lp for lp in nodes(azx, ast.For) if unparse(lp.iter).endswith('analyze_order') and isinstance(lp.target, ast.Name)]
+	if not loops:
+		ro.skip('first-match-dispatch', az.where, 'analyze_domain no longer loops over analyze_order')
+	for lp in loops:
+		rets = [n for n in nodes(lp, ast.Return) if n.value is not None and unparse(n.value) == lp.target.id]
+		ro.check(bool(rets) and all(any(p_ and isinstance(a, ast.Call) for a, p_ in atoms(azx, n)) for n in rets), 'first-match-dispatch', az.where, 'analyze_domain must return the first domain of analyze_order (in order) whose analyzer accepts')
 	charset_of = {'TokenDomains.WhiteSpace': 'white_space', 'TokenDomains.Symbol': 'symbol', 'TokenDomains.Number': 'number', 'TokenDomains.Identifier': 'identifier'}
 	openers_of = {'TokenDomains.Comment': 'comment', 'TokenDomains.Quote': 'quote'}
 	for label, d in (('default', base), ('grammar', gram)):
